@@ -251,6 +251,42 @@ example : addressesForRollingBuffer exT16 ⟨0, 1, 0, 0⟩ ⟨1, 5, 3, 20⟩ exS
 /-- a box that crosses the buffer in x is rejected, as in the code -/
 example : addressesForRollingBuffer { exRoll with storageShape := [1, 3, 2, 32] } ⟨0, 1, 1, 0⟩ ⟨1, 2, 3, 20⟩ exSt exOp = .error .unsupported := by decide
 
+/-- `create_feature_map` without multiplier, offsets or transpose hands exactly `get_strides(op_shape4D)` and the tile box
+    of `addresses_for_rolling_buffer` to the registers: `toFM` of `tiles_cover_box` is the feature map it produces
+    (strides height / width / depth = `strides[2]`, `[3]`, `[1]`). -/
+theorem create_feature_map_regs (t : Tens) (s e op : S4) (st : Strides) (tb : TileBox)
+    (hfmt : t.fmt ≠ .other) (hst : getStrides t (some op) = .ok st)
+    (htb : addressesForRollingBuffer t s e st op = .ok tb) :
+    createFeatureMap t s e op [0, 0, 0, 0] none false = .ok ⟨st.sH, st.sW, st.sC, tb⟩ ∧
+    createFeatureMap t s e op [0, 0, 0, 0] (some (1, 1, 1)) false = .ok ⟨st.sH, st.sW, st.sC, tb⟩ := by
+  have h1 : (t.fmt == Fmt.other) = false := by cases h : t.fmt <;> simp_all
+  constructor <;> simp [createFeatureMap, h1, fmStrides, hst, applyMult, htb]
+
+/-- the tile split of this model is the row ↦ slot split of `Model/Cascade.addressesForRollingBuffer`
+    (C10 `tile_addresses`: row r of the box lives in slot `r % B`) -/
+theorem tile_split_agrees_with_cascade (t : Tens) (s e op v : S4) (st : Strides) (tb : TileBox) (ct : Cascade.Tiles)
+    (hne : t.storageShape ≠ []) (hv : viewShape t (some op) = .ok v)
+    (htb : addressesForRollingBuffer t s e st op = .ok tb)
+    (hct : Cascade.addressesForRollingBuffer s.h e.h s.w e.w v.h v.w = .ok ct) :
+    tb.height0 = ct.height0 ∧ tb.height1 = ct.height0 ∧ tb.width0 = ct.width0 := by
+  unfold addressesForRollingBuffer at htb
+  unfold Cascade.addressesForRollingBuffer at hct
+  split at hct
+  · cases hct
+  · simp only at hct
+    split at hct
+    · cases hct
+    · injection hct with hct
+      subst hct
+      split at htb
+      · cases htb
+      · rw [hv] at htb
+        simp only at htb
+        repeat' (split at htb)
+        all_goals first | (cases htb; done) | (injection htb with htb; subst htb; exact ⟨rfl, rfl, rfl⟩)
+example : createFeatureMap exT16 ⟨0, 1, 0, 0⟩ ⟨1, 5, 3, 20⟩ exOp [0, 0, 0, 0] none false = .ok ⟨192, 32, 96, ⟨4, 4, 3, 1216, 0, 0, 0⟩⟩ := by decide
+example : Cascade.addressesForRollingBuffer 1 4 0 3 3 3 = .ok ⟨2, 3, 1, some 0⟩ := by decide
+
 /- Full statement (FALSE when the box does not start on a brick): `tiles_cover_box` for NHCWB16 without `s.c % 16 = 0`.
    The tile base carries `(c0 / 16)·strideC + (c0 % 16)·e`; the hardware then adds `(c / 16)·strideC + (c % 16)·e` for the
    box-relative channel c, which is the tensor's address of channel c0 + c only if `c0 % 16 + c % 16 < 16` throughout.
